@@ -8,6 +8,28 @@ import sys
 HERE = os.path.dirname(os.path.abspath(__file__))
 sys.path.insert(0, HERE)
 ALL = [f"C{i:02d}" for i in range(1, 21)]
+TECH = {
+    "C01": "runtime monitoring: postcondition on the real Die constructor over seeded die descriptions, exact-rational tiling oracle",
+    "C02": "runtime monitoring: postconditions on Allocation.refine/uniform_refinement_depth/griddify along operation sequences, exact parent/child tiling + conservation oracle",
+    "C03": "runtime monitoring: postcondition on create_initial_allocation, exact overlap-fraction reference model",
+    "C04": "runtime monitoring: write->read->write differential on the real Netlist, field-by-field comparison of the loaded objects",
+    "C05": "runtime monitoring: reference evaluator over the source document vs the loaded Netlist; fault injection of 11 ill-formedness classes that must be refused",
+    "C06": "runtime monitoring: create_stog on all permutations vs exact three-valued reference recogniser; identity/value preservation check",
+    "C07": "runtime monitoring: CNF captured from the real SATManager, interrogated with pysat under all 2^n assumptions vs direct integer semantics; solve()/value()/evalexpr() checked",
+    "C08": "runtime monitoring: recording SATManager subclass captures rect.solve's formula; all models enumerated vs brute-force k-box orthogon reference; return value checked",
+    "C09": "runtime monitoring: every Equation of the real legaliser Model evaluated (is_equation_met) on legal and one-clause-illegal configurations",
+    "C10": "runtime monitoring: icontract postcondition on the real extract_solution (every optimiser iteration) + final-return feasibility oracle",
+    "C11": "runtime monitoring: postcondition on Die.split_refinable_regions/initial_grid (parent matching, exact tiling, tag, ratio, count)",
+    "C12": "runtime monitoring: must_be_refined vs refine along bounded refine-while-needed histories; exact reference for split decisions, halving, depth, grid alignment",
+    "C13": "runtime monitoring: before/after snapshots, determinism re-run, recording wrapper over the trials of force_algorithm with independently recomputed cost",
+    "C14": "runtime monitoring: icontract postcondition on the real spectral_layout_die (every trial, real seeds) + end-to-end module check",
+    "C15": "runtime monitoring: exhaustive small grids + random grids + traced polygons through the real Strop/strop_decomposition vs independent existence test",
+    "C16": "runtime monitoring: real operator overloads on typed expression DAGs vs direct big-int evaluation under all assignments; operand-mutation re-check",
+    "C17": "runtime monitoring: postcondition on circle_circle_intersection_area vs 60-digit mpmath lens area; symmetry/bounds/totality",
+    "C18": "runtime monitoring: Rectangle methods vs exact rational geometry with gray zones; in-situ icontract postconditions during higher-layer workloads and the repository's tests",
+    "C19": "runtime monitoring: producer->reader differential for eight document producers; produce-twice and source-unchanged snapshots",
+    "C20": "runtime monitoring: fork-pair differential (fresh vs after random history) with forced-tolerance third child as known-finding classifier; fresh-interpreter cross-check",
+}
 checks, na = [], []
 for pid in ALL:
     path = os.path.join(HERE, "fv", "props", pid.lower() + ".py")
@@ -40,7 +62,7 @@ for pid in ALL:
             "design_ref": ns["DESIGN_REF"] or f"DESIGN.md section 3 ({pid})",
         },
         "level_note": ns["LEVEL_NOTE"] or "Trusted: the harness oracle (exact rational / brute-force re-statement of the property), CPython, the generators' stated input classes; nothing is claimed about inputs outside the generated classes and size bounds.",
-        "technique": ns["TECHNIQUE"] or "runtime monitoring: seeded workload + reference-model oracle on the real functions",
+        "technique": ns["TECHNIQUE"] or TECH[pid],
     })
 man = {
     "version": 1,
